@@ -40,6 +40,7 @@ var (
 
 const (
 	wCtx     = 10 * time.Second // after context end / Close / connection fault
+	wPrompt  = 3 * time.Second  // "promptly after its context ends" for real upstreams (judged only if it repeats)
 	wSilence = 45 * time.Second // unbounded context, silent server: own timeouts (3 attempts x 10 s worst case)
 )
 
